@@ -139,6 +139,7 @@ def mutants(args):
                     else:
                         verdicts.append(f"{pid}:exit{c.returncode} {c.stdout[-200:]} {c.stderr[-200:]}")
                 results.append((name, pids, " ".join(verdicts), f"{time.time() - t0:.0f}s"))
+                print(f"[progress] {name:60s} {' '.join(verdicts)}", flush=True)
             sh(f"git -C {SCRATCH}/repo checkout -- . && git -C {SCRATCH}/repo clean -fdq")
     finally:
         shutil.rmtree(SCRATCH, ignore_errors=True)
